@@ -4,7 +4,7 @@ import ast
 from ..core import sym
 from ..core.expand import u, call_name, get_arg, bind_args, Expander, is_marker, phi_alternatives
 from ..core.loader import Inconclusive, const_value, parents
-from .common import (aliases_of, returns, all_nodes, callee, strip_shape, calls_in, guards_of, stmt_of, loops_around, kw,
+from .common import (aliases_of, literal_dnf, returns, all_nodes, callee, strip_shape, calls_in, guards_of, stmt_of, loops_around, kw,
                      find_assignments, result_fields, in_loop)
 
 EXPLANATION = (
@@ -326,14 +326,37 @@ def rule_reset(ck):
         # rejection loop counts a cell only when it was empty
         for w in [n for n in all_nodes(f) if isinstance(n, ast.While)]:
             o = ck.ob('C06-D7.reject', f, w.test, w)
-            incs = [n for n in ast.walk(w) if isinstance(n, (ast.AugAssign, ast.Assign)) and 'num_active' in u(n.targets[0] if isinstance(n, ast.Assign) else n.target)]
-            good = bool(incs)
+            # the loop counter: `while c < N`; every write of c in the loop adds one, in a branch taken only when the drawn cell was
+            # empty and which marks the cell
+            cnt = None
+            if isinstance(w.test, ast.Compare) and len(w.test.ops) == 1:
+                l_, r_ = w.test.left, w.test.comparators[0]
+                if isinstance(w.test.ops[0], ast.Lt) and isinstance(l_, ast.Name) and u(r_) == first:
+                    cnt = l_.id
+                elif isinstance(w.test.ops[0], ast.Gt) and isinstance(r_, ast.Name) and u(l_) == first:
+                    cnt = r_.id
+            good = cnt is not None
+            incs = [n for n in ast.walk(w) if isinstance(n, (ast.AugAssign, ast.Assign)) and u(n.targets[0] if isinstance(n, ast.Assign) else n.target) == cnt] if cnt else []
+            good = good and bool(incs)
             for inc in incs:
-                g = guards_of(inc, w)
-                if not any(pol and N.nf(t) in (N.nf('%s[loc] == 0' % arr),) or (not pol and N.nf(t) == N.nf('%s[loc] != 0' % arr)) for t, pol in g):
+                if isinstance(inc, ast.AugAssign):
+                    one = isinstance(inc.op, ast.Add) and const_value(inc.value) == 1
+                else:
+                    one = N.nf(inc.value) == N.nf('%s + 1' % cnt)
+                if not one:
                     good = False
-            wt = N.nf(w.test)
-            if wt != N.nf('num_active_cells < %s' % first):
+                    continue
+                idx = None
+                for t, pol in guards_of(inc, w):
+                    for atom, apol in (literal_dnf(t, pol)[0] if len(literal_dnf(t, pol)) == 1 else []):
+                        if isinstance(atom, ast.Compare) and len(atom.ops) == 1 and isinstance(atom.left, ast.Subscript) and u(atom.left.value) == arr \
+                                and const_value(atom.comparators[0]) == 0 and (isinstance(atom.ops[0], ast.Eq) == apol) \
+                                and isinstance(atom.ops[0], (ast.Eq, ast.NotEq)):
+                            idx = u(atom.left.slice)
+                if idx is None:
+                    good = False
+            inits = [a for a in find_assignments(f, cnt) if isinstance(a, ast.Assign) and not any(a is x for x in ast.walk(w))] if cnt else []
+            if not (len(inits) == 1 and const_value(inits[0].value) == 0):
                 good = False
             (o.ok('loop until N distinct cells; a cell counts only when it was empty') if good else
              o.fail('the rejection loop does not count a cell only when it was empty / does not run until `%s` distinct cells are active' % first))
